@@ -99,6 +99,9 @@ struct Tick {
 struct RecData {
     last_price: Option<Decimal>,
     trades_seen: u64,
+    /// market events delivered to THIS instrument's data (not idempotent on purpose: a user's indicator
+    /// state counts every delivery)
+    market_seen: u64,
 }
 
 impl InstrumentDataState for RecData {
@@ -111,6 +114,7 @@ impl Processor<&MarketEvent<InstrumentIndex, Tick>> for RecData {
     type Audit = ();
     fn process(&mut self, e: &MarketEvent<InstrumentIndex, Tick>) {
         self.last_price = Some(e.kind.price);
+        self.market_seen += 1;
     }
 }
 impl Processor<&AccountEvent> for RecData {
@@ -155,7 +159,9 @@ impl Processor<&AccountEvent> for RecGlobal {
             }
             AccountEventKind::OrderCancelled(r) => format!("cancel cid={}", r.key.cid.0),
             AccountEventKind::Trade(t) => format!(
-                "trade strategy={} instr={} side={:?} price={} qty={} fee={}",
+                "trade id={} oid={} strategy={} instr={} side={:?} price={} qty={} fee={}",
+                t.id.0,
+                t.order_id.0,
                 t.strategy.0,
                 t.instrument.index(),
                 t.side,
@@ -284,6 +290,8 @@ struct Obs {
     final_positions: Vec<Option<(String, String, String, String)>>, // (side, qty, entry, pnl_realised)
     final_balances: Vec<Option<String>>,
     orders_open_at_last_call: usize,
+    /// per instrument: market events delivered to the instrument's own data state
+    instrument_market_seen: Vec<u64>,
     /// bookkeeping of the strategy: sequence numbers it already traded at
     sent_marks: Vec<u64>,
     signalled_start: bool,
@@ -327,6 +335,7 @@ impl AlgoStrategy for BtStrategy {
         let open_orders: usize = state.instruments.instruments(&InstrumentFilter::None).map(|s| s.orders.0.len()).sum();
         obs.orders_open_at_last_call = open_orders;
         let trades_seen: u64 = state.instruments.instruments(&InstrumentFilter::None).map(|s| s.data.trades_seen).sum();
+        obs.instrument_market_seen = state.instruments.instruments(&InstrumentFilter::None).map(|s| s.data.market_seen).collect();
 
         let mut opens = vec![];
         // start barrier: market data starts flowing only once every engine of the run has processed
@@ -574,6 +583,13 @@ fn judge_single(case: &Case, b: usize, obs: &Obs, dg: &Digest, out: &mut Outcome
             return Err(("dataset_event_content_changed", format!("bt{b}: event {k}")));
         }
     }
+    // each item is delivered exactly once to the data state of ITS instrument as well
+    out.checks += 1;
+    let want_per_instr: Vec<u64> = (0..N_INSTR).map(|i| case.events.iter().filter(|e| e.0 == i).count() as u64).collect();
+    if !obs.instrument_market_seen.is_empty() && obs.instrument_market_seen != want_per_instr {
+        let sig = if obs.instrument_market_seen.iter().zip(&want_per_instr).any(|(g, w)| g > w) { "dataset_event_processed_twice" } else { "dataset_events_skipped" };
+        return Err((sig, format!("backtest bt{b}: market events delivered to the instruments' data states {:?}, the dataset holds {:?} per instrument", obs.instrument_market_seen, want_per_instr)));
+    }
     // reconnect markers of the dataset are events too: each must reach the engine once, in place
     out.checks += 1;
     let mut items_before = 0u64;
@@ -600,7 +616,7 @@ fn judge_single(case: &Case, b: usize, obs: &Obs, dg: &Digest, out: &mut Outcome
     let cid_tag = format!("cid=bt{b}-");
     for a in &obs.account {
         out.checks += 1;
-        let foreign = (a.starts_with("trade ") && !a.contains(&format!("{tag} "))) || (a.starts_with("order ") && !(a.contains(&cid_tag) && a.contains(&format!("{tag} "))));
+        let foreign = (a.starts_with("trade ") && !a.contains(&format!(" {tag} "))) || (a.starts_with("order ") && !(a.contains(&cid_tag) && a.contains(&format!("{tag} "))));
         if foreign {
             return Err(("backtest_observed_another_backtests_order_or_fill", format!("bt{b} saw: {a}")));
         }
@@ -632,7 +648,14 @@ fn judge_single(case: &Case, b: usize, obs: &Obs, dg: &Digest, out: &mut Outcome
                 }
             }
         }
-        if dg.fills != expected_fills {
+        let strip = |f: &String| -> String {
+            // "trade id=.. oid=.. strategy=..." -> "trade strategy=..."
+            match f.find("strategy=") {
+                Some(k) => format!("trade {}", &f[k..]),
+                None => f.clone(),
+            }
+        };
+        if dg.fills.iter().map(strip).collect::<Vec<_>>() != expected_fills {
             return Err(("fills_differ_from_the_backtests_own_scripted_orders", format!("bt{b}: observed {:?} expected {:?}", dg.fills, expected_fills)));
         }
         let want_bal: Vec<Option<String>> = bal.iter().map(|x| Some(x.normalize().to_string())).collect();
